@@ -281,6 +281,37 @@ CouldRequestMore(m) ==
        THEN \E lq \in LatestQuorums : finalIdx * Interval + Len(lq) >= m + 1
        ELSE cached'[1] = should /\ Len(cached'[2]) = Interval
 
+\* GET_BLOCK_FILTERS tick (try_send_get_block_filters(immediately = FALSE)): the SET of possible requests
+\* <<peer, start>>.  The request goes to a proven peer of maximal total difficulty; with a matched record in the
+\* store only when the in-memory map was empty (it is recovered by this tick); otherwise only when the last
+\* request is old enough (elapsed).  Evaluated on a step that leaves cpFinal, cached and pf unchanged.
+FiltersTickAsks(elapsed) ==
+    LET proven == {p \in PeerNames : HasProof(peer[p])}
+        best == {p \in proven : \A q \in proven : Td(world, peer[q].proved) <= Td(world, peer[p].proved)}
+        want == IF mdb # <<>> THEN mmem = {} /\ CouldRequestMore(minF)
+                ELSE scripts # {} /\ elapsed /\ CouldRequestMore(minF)
+    IN IF proven = {} \/ ~want THEN {{}} ELSE {{<<p, minF + 1>>} : p \in best}
+
+\* GET_BLOCK_FILTER_HASHES tick (try_send_get_block_filter_hashes): the cached hashes follow the filter position
+\* (Recache); while they are incomplete and below the final check point one proven peer whose check point
+\* vector starts at or above the final index is asked (random choice) for the next missing hash; once the
+\* position is in the last, unfinalized stretch every proven peer whose latest hashes start at the final check
+\* point and end less than two intervals below its proved number is asked for more
+HashesTickAsks ==
+    LET fin == Len(cpFinal) - 1
+        c == Recache(cached, minF)
+    IN IF c[1] < fin /\ Len(c[2]) < Interval
+       THEN LET best == {p \in PeerNames : HasProof(peer[p]) /\ CpStart(pf[p].cps) >= fin} IN
+            IF best = {} THEN {{}} ELSE {{<<p, c[1] * Interval + Len(c[2]) + 1>>} : p \in best}
+       ELSE IF c[1] >= fin
+       THEN {{<<p, LatestOf(p)[1] + Len(LatestOf(p)[2]) + 1>> :
+                p \in {q \in PeerNames :
+                         /\ HasProof(peer[q]) /\ LatestOf(q)[1] = fin * Interval
+                         /\ \E last \in {LatestOf(q)[1] + Len(LatestOf(q)[2])} :
+                               /\ last < Num(world, peer[q].proved)
+                               /\ Num(world, peer[q].proved) - last < 2 * Interval}}}
+       ELSE {{}}
+
 \* chained hash: filter data of block f on top of parent hash `par` gives fid f iff par is fid of f's parent
 ChainHash(par, f) == IF f # 0 /\ Par(world, f) = par THEN f ELSE -1
 
